@@ -4,7 +4,7 @@ CONSTANTS
   Owners <- O2
   SubOpts <- OptWeak
   AutoOpts <- AutoTwo
-  RVs = {"none", "remove"}
+  RVs = {"none"}
   UnsubModes = {"handler", "pair"}
   Forms = {"inst"}
   NoErrs = {FALSE}
@@ -21,15 +21,5 @@ CONSTANTS
 INIT Init
 NEXT Next
 VIEW viewE
-INVARIANT TypeOK
-INVARIANT WeakGone
-INVARIANT FreedGone
-INVARIANT InOrder
-PROPERTY ExactlyOnce
-PROPERTY SubscribedAtRaise
-PROPERTY Complete
-PROPERTY HaltStops
-PROPERTY NoErrorsContained
-PROPERTY RejectedUnchanged
-PROPERTY NeverAgain
+ACTION_CONSTRAINT ExportT
 CHECK_DEADLOCK FALSE
